@@ -28,6 +28,10 @@ CHECKS = {
          'bounded-exhaustive enumeration of write sets x permutations x read patterns x residency on the real StateLedger',
          'Every set of <=3 (thorough <=4) writes over 8 targets is executed in every order, read pattern and residency (cache, reopened, purged) on the real SimpleLedger: equal write sets must give equal roots, change sets differing in one item and equal changes on different previous roots must give different roots; tx/receipt Merkle roots likewise for every permutation and single-field perturbation.',
          'memkv stands in for goleveldb (same observable semantics); universe of 2 accounts, 3 keys, 2-3 values', '5 C10'),
+ 'C11': ('crashmc', 'fault_enumeration',
+         'exhaustive enumeration of crash states (products of per-writer prefixes of the recorded durable writes of a block commit), each reopened through the real ledger.New and compared with a never-crashed replica',
+         'For every block commit of three scenarios (heights 13-16 with journal pruning, heights 2-4, genesis) all products of prefixes of state-store batches x chain-index batch x ordered blockfile appends are materialised and reopened; opens, height, readable hash-linked blocks, state version/root/content equal to the never-crashed replica, and re-execution of the remaining blocks are checked. Opens that would spin forever or continuations that would kill the process are confirmed in CPU-limited subprocesses. Five structural defects are recorded as known findings (22 class signatures).',
+         'process death only (each durable write all-or-nothing, per-writer program order); memkv for goleveldb, real blockfile', '5 C11'),
  'C12': ('ledgermc', 'model_checking',
          'explicit-state BFS over block histories with rollback(t) on the real StateLedger against recorded reference states',
          'All histories of <=5 (thorough <=7) blocks drawn from 18 block kinds with rollback to every target 0..head+1, repeated rollbacks, other continuations and reopen; after each rollback the store, getters, root chain and re-execution of the original suffix are compared with what was recorded when the target was committed; plus a 13-block history across the journal window.',
@@ -68,6 +72,7 @@ def main():
             {'name': 'ledgermc', 'path': 'harness/checks/sl.go', 'serves_properties': ['C12', 'C13'], 'kind_free_text': 'explicit-state BFS (state = history, replay on fresh instance) over real StateLedger'},
             {'name': 'icmc', 'path': 'harness/checks/ic.go', 'serves_properties': ['C02', 'C04', 'C06'], 'kind_free_text': 'explicit-state BFS over block histories of the real executor stepped with a reference model'},
             {'name': 'chainmc', 'path': 'harness/checks/c09.go', 'serves_properties': ['C09', 'C14'], 'kind_free_text': 'explicit-state BFS over chain histories'},
+            {'name': 'crashmc', 'path': 'harness/checks/c11.go', 'serves_properties': ['C11'], 'kind_free_text': 'crash-state enumeration from recorded writes'},
             {'name': 'enum', 'path': 'harness/checks/c10.go', 'serves_properties': ['C10'], 'kind_free_text': 'bounded-exhaustive enumeration'},
         ],
         'checks': checks,
